@@ -138,6 +138,11 @@ func genCase(kind string) func(t *rapid.T) Case {
 				{K: "advance", D: rapid.IntRange(0, 6).Draw(t, "pd1")}, mid, {K: "removekey", Key: k},
 				{K: "advance", D: rapid.IntRange(6, len(advTable)-1).Draw(t, "pd2")}, {K: "advance", D: len(advTable) - 1}}
 			c.Ops = append(pre, c.Ops...)
+		} else if c.RefCount && !c.Full && rapid.IntRange(0, 2).Draw(t, "relrace") == 0 {
+			// construction: a Release is on its way (possibly parked before the refcount mutex)
+			// while the key is removed and referenced again by others
+			k := key.Draw(t, "rkey")
+			c.Ops = append([]Op{{K: "setctx", Ctx: "new"}, {K: "addref", Key: k}, {K: "release", Pick: 0}, {K: "rcremove", Key: k}, {K: "addref", Key: k}}, c.Ops...)
 		} else if rapid.IntRange(0, 3).Draw(t, "prefix") != 0 {
 			c.Ops = append([]Op{{K: "setctx", Ctx: "new"}}, c.Ops...)
 		}
